@@ -254,6 +254,41 @@ pub fn directed() -> Vec<Input> {
             add(&format!("constant mixed into a logical condition: {}", form.replace("{}", c)), &format!("char a;\nvoid main() {{ {} }}\n", form.replace("{}", c)));
         }
     }
+    add("shift of X by 8 plus constant", "char x;\nvoid main() { x = (X >> 8) + 1; }\n");
+    add("shift of Y by 8 minus constant", "char x;\nvoid main() { x = (Y >> 8) - 1; }\n");
+    add("shift of a prototype-only function by 8 plus constant", "void f();\nchar x;\nvoid main() { x = (f >> 8) + 1; }\n");
+    add("array of function pointers", "void a() {}\nvoid (*tab[1])() = {a}\nvoid main() { }\n");
+    add("local array of negative size", "void main() { short a[-1]; }\n");
+    add("local array of huge size", "void main() { short a[1073741824]; a[X] = 1; }\n");
+    add("pointer offset overflow", "const char *p = \"a\"; char x;\nvoid main() { x = p + 2147483647 + 1; }\n");
+    add("pointer offset underflow", "const char *p = \"a\"; char x;\nvoid main() { x = p - 2147483647 - 2; }\n");
+    add("pointer high byte offset overflow", "const char *p = \"a\"; char x;\nvoid main() { x = (p >> 8) + 100000000; }\n");
+    add("pointer high byte negative offset overflow", "const char *p = \"a\"; char x;\nvoid main() { x = (p >> 8) - 100000000; }\n");
+    add("assignment to an array", "char arr[4];\nvoid main() { arr = 5; }\n");
+    add("increment of an array", "char arr[4];\nvoid main() { arr++; arr--; arr += 2; }\n");
+    add("shift of an array", "char arr[4];\nvoid main() { arr <<= 1; }\n");
+    add("assignment to a table", "const char t[2] = {1, 2};\nvoid main() { t = 2; }\n");
+    add("recursive inline function", "char a, b;\ninline char f(char n) { if (n == 0) return 0; return f(n - 1) + 1; }\nvoid main() { a = f(b); }\n");
+    add("mutually recursive inline functions", "char a;\ninline void g();\ninline void f() { if (a) g(); }\ninline void g() { a--; f(); }\nvoid main() { f(); }\n");
+    add("variable named like a literal table", "char cctmp0;\nchar *p, *q;\nvoid main() { p = \"ab\"; q = \"cd\"; }\n");
+    add("function named like a literal table", "void cctmp0() { }\nchar *p;\nvoid main() { p = \"ab\"; cctmp0(); }\n");
+    add("local named like a mangled local", "char g;\nvoid main() { { char i; char i_0; i = 1; i_0 = 2; } { char i; i = 3; } g = 1; }\n");
+    add("unknown directive in a skipped region", "#if 0\n#pragma once\n#unknown\n#endif\nvoid main() { }\n");
+    add("malformed directives in a skipped region", "#if 0\n#if\n#ifdef\n#elif\n#else garbage\n#define\n#include\n#endif\nvoid main() { }\n");
+    add("directive keyword defined as a macro", "#define endif 1\n#if 1\nchar a;\n#endif\nvoid main() { }\n");
+    add("paste followed by identifier characters", "#define cat(x) x##1\nchar v1;\nvoid main() { X = cat(v); }\n");
+    add("macro parameter list with spaces", "#define add(a , b) a+b\n#define sub( a,b ) (a-b)\nvoid main() { X = add(1,2); Y = sub(3,1); }\n");
+    add("character constant holding a quote", "char a;\nvoid main() { a = '\"'; }\n");
+    add("escaped backslash then escaped quote", "char *s;\nvoid main() { s = \"x\\\\\\\"y\"; }\n");
+    add("non-ASCII character constants before an error", "char a;\nvoid main() {\n  a = 'é' + 'é' + 'é' + 'é'; a = 1;\n  a = 2;\n  a = zz;\n}\n");
+    add("long line with a multi-byte character at the listing cut", &format!("char i;\nvoid main() {{ {}{}i = 'é'; i = 2; i = 3; }}\n", "i = 1; ".repeat(26), "i = 10; ".repeat(6)));
+    add("long line of multi-byte characters", &format!("char i;\nvoid main() {{ {} }}\n", "i = 'é'; ".repeat(60)));
+    add("do without space", "char i;\nvoid main() { do{ i++; }while(i<3); }\n");
+    add("pointer declarator glued to the type", "char*p;\nvoid main() { }\n");
+    add("tab after a directive name", "#define\tONE 1\n#ifdef\tONE\nchar a;\n#endif\nvoid main() { }\n");
+    add("indented include", "  #include \"c16_inc_plain.h\"\nvoid main() { inc_a = 1; }\n");
+    add("block comment opened on a define line", "#define X 1 /* start\n end */ + 2\nchar a;\nvoid main() { a = X; }\n");
+    add("nested call overwriting parameters", "char r;\nchar f(char a, char b) { return a - b; }\nvoid main() { r = f(9, f(5, 1)); }\n");
     add("conditional continue in switch without loop", "char a, c;\nvoid main() { switch (a) { case 1: if (c) continue; } }\n");
     add("conditional break in switch without loop", "char a, c;\nvoid main() { switch (a) { case 1: if (c) break; a = 2; } }\n");
     add("conditional continue in nested switch in loop", "char a, c;\nvoid main() { while (a) { switch (a) { case 1: switch (c) { case 2: if (c) continue; } } a--; } }\n");
@@ -295,6 +330,9 @@ pub fn directed() -> Vec<Input> {
     }
     for (name, src) in raw {
         v.push(Input { family: "directed", name, src, opts: vec!["-O1"] });
+    }
+    for d in ["-DA(=1", "-DA[=1", "-DA*=1", "-DA.B=1", "-D=1", "-DA==", "-D", "-DA=(", "-DA=A", "-DA=A A", "-D1=2", "-DA B=3"] {
+        v.push(Input { family: "directed", name: format!("command-line definition {}", d), src: b"char x;\nvoid main() { x = A; }\n".to_vec(), opts: vec!["-O1", d] });
     }
     // every directed input again with the listing option and without optimisation
     let again: Vec<Input> = v.iter().map(|i| Input { family: "directed", name: format!("{} [-O0 --insert-code]", i.name), src: i.src.clone(), opts: vec!["-O0", "--insert-code"] }).collect();
